@@ -31,6 +31,7 @@ case $VARIANT in
   tsan) SAN="-fsanitize=thread -fno-omit-frame-pointer -O1 -gline-tables-only"; CORESAN="";;
   fast) SAN="-O2 -gline-tables-only"; CORESAN="";;
   dbg) SAN="-O0 -g"; CORESAN="";;
+  vg) SAN="-O1 -gdwarf-4 -g"; CORESAN="";;
   *) echo "unknown variant $VARIANT" >&2; exit 2;;
 esac
 
